@@ -26,6 +26,8 @@ class ExprMixin:
             return v.t != self.ctx.sorts.Node.NNil
         if isinstance(v, VAst):
             return z3.BoolVal(True)
+        if isinstance(v, VStack):
+            return self.ctx.sorts.stack_sort(v.elem_kind).is_SCons(v.t)
         if isinstance(v, VElemList):
             return self.ctx.sorts.ElemList.is_ECons(v.t)
         if isinstance(v, VElem):
@@ -265,6 +267,12 @@ class ExprMixin:
                     kids = self.coerce(v.items[view[1]], ELEMLIST).t
                     return VElem(E.EElem(tag, z3.BoolVal(False), z3.StringVal(''), kids))
                 raise OutOfReach(f'dict with keys {sorted(map(str, v.items))} is not a document node of the declared view')
+        if kind[0] == 'stack' and isinstance(v, (VList, VTuple)):
+            S_ = self.ctx.sorts.stack_sort(kind[1])
+            t = S_.SNil
+            for it in v.items:          # the last element of the list is the top of the stack
+                t = S_.SCons(self.coerce(it, kind[1]).t, t)
+            return VStack(t, kind[1])
         if kind[0] == 'elemlist' and isinstance(v, (VList, VTuple)):
             L = self.ctx.sorts.ElemList
             t = L.ENil
@@ -748,7 +756,7 @@ class ExprMixin:
             return VLib(base.dotted + '.' + base.name, name)
         if isinstance(base, VStr):
             return VBoundStr(base, name)
-        if isinstance(base, (VList, VSeq, VHeapList, VDict, VSet, VHeapMap, VAttrib)):
+        if isinstance(base, (VList, VSeq, VHeapList, VDict, VSet, VHeapMap, VAttrib, VStack)):
             return VBoundColl(base, name, node.value if node is not None else None)
         if isinstance(base, VElem):
             E = self.ctx.sorts.Elem
